@@ -113,3 +113,14 @@ TEXT['C06'].update(
     level_note='Uninterpreted: is_nan, is_str, isinstance(_, Pattern), Pattern.search, membership in as_list(value). Assumed contract: table[mask] (C01). '
                'Two obligations are syntactic checks of the real AST text (exc mask expression, inc empty-result tail).',
     technique='contract-based deductive verification (AST-generated VCs over uninterpreted cell predicates, z3/cvc5) + bounded run-time contract check')
+
+PROPS['C11'].update(level='other', explanation='Deductive (counted as proved): _listby (groups tile the sorted rows, keys strictly increasing, members carry the group key, '
+    'rows of a group in original order, every row listed) and the cell expressions of listby and groupby (one entry per row of the group, each the value of that row). '
+    'Argued from these, not solver steps: one row per distinct key, sizes add up, unlist is the stable sort. Bounded only: constructors, update, concat in unlist/ungroup, '
+    'pivot (xyz) and unpivot.')
+TEXT['C11'].update(
+    level_text='Mixed: the grouping algorithm and the per-cell expressions are proved for all tables; the assembling constructor calls, ungroup, pivot and unpivot '
+               'are covered by the bounded stand-in only, so the claim is "other".',
+    level_note='Hypotheses from other properties: cmp laws and the sort contract (C07), dict-level column lookup (C01). One obligation per function is a syntactic check '
+               'of the iteration source on the AST. Trusted: VC generator, list/array axioms, z3/cvc5.',
+    technique='contract-based deductive verification (AST-generated VCs, loop invariants, z3/cvc5) + bounded run-time contract check')
